@@ -444,6 +444,49 @@ class FuncEffects:
             return {"fresh"}
         return {"unknown"}
 
+    # ---- data sources (what a value is computed *from*, through any operation) ---------------------------------------
+    def sources(self, e, at=None, _depth=0, _seen=None):
+        """root tags of every input that flows into the value of ``e`` (slices, calls, formatting, arithmetic all
+        propagate): param:<n>, self:<attr>, global:<mod>.<n>, closure:<n>.  Constants contribute nothing."""
+        if at is None:
+            at = e
+        _seen = _seen if _seen is not None else set()
+        self._reaching()
+        out = set()
+        if _depth > 14:
+            return out
+        for n in ast.walk(e):
+            if isinstance(n, ast.Attribute) and isinstance(n.value, ast.Name) and n.value.id == self.selfname:
+                out.add("self:" + n.attr)
+            elif isinstance(n, ast.Name) and isinstance(n.ctx, ast.Load):
+                if n.id == self.selfname:
+                    continue
+                if self._comp_binding(n) is not None:
+                    continue
+                if n.id in self.local_names:
+                    for d in self.defs_at(n.id, at):
+                        if id(d) in _seen:
+                            continue
+                        _seen.add(id(d))
+                        if d.kind == "param":
+                            out.add("param:" + d.name)
+                        elif d.kind == "aug":
+                            out |= self.sources(d.value.value, d.value, _depth + 1, _seen)
+                            for dd in self.defs_at(d.name, d.value):
+                                if id(dd) not in _seen:
+                                    _seen.add(id(dd))
+                                    if dd.kind == "param":
+                                        out.add("param:" + dd.name)
+                                    elif dd.value is not None and dd.kind != "aug":
+                                        out |= self.sources(dd.value, dd.stmt, _depth + 1, _seen)
+                        elif d.value is not None and d.stmt is not None:
+                            out |= self.sources(d.value, d.stmt, _depth + 1, _seen)
+                elif n.id not in FRESH_BUILTINS and not isinstance(getattr(n, "_parent", None), ast.Call) or (
+                        isinstance(getattr(n, "_parent", None), ast.Call) and getattr(n, "_parent").func is not n):
+                    if n.id not in self.local_names and n.id not in FRESH_BUILTINS:
+                        out.add(f"global:{self.mod.name}.{n.id}")
+        return out
+
     # ---- mutation sites --------------------------------------------------------------------------------------------
     def _container_evidence(self, name):
         """is ``name`` known to be a *mutable* container here?  (x += y rebinds for tuples / str / frozenset / int and
